@@ -548,6 +548,11 @@ def shape_catalogue():
         prog(f"switch_lonejump_{tname}", [("label", "s"), _u(9), ("switch", sw, [(case(1), [_u(1)]), (case(2), [("jump", "s")]), (case(3), [_u(2)]), (("default",), [("jump", "e")])]), _u(3)] + tail + [("label", "e")])
         prog(f"switch_shared_block_{tname}", [_u(1), ("switch", sw, [(case(1), [("jump", "sh")]), (case(2), [_u(2), ("ctrl", "break")]), (case(3), [("jump", "sh")]),
                                                                       (case(4), [_u(3), ("ctrl", "break")]), (case(5), [("label", "sh"), _u(4), ("ctrl", "break")])]), _u(5)] + tail)
+        prog(f"switch_shared_block_two_routines_{tname}",
+             [_u(1), ("switch", sw, [(case(1), [("jump", "sh")]), (case(2), [_u(2), ("ctrl", "break")]), (case(3), [("jump", "sh")]),
+                                     (case(4), [("label", "sh"), _u(4), ("ctrl", "break")])]), _u(5)] + tail,
+             [[_u(11), ("switch", ("Switch", (("int", 51),)), [(case(1), [("jump", "sh2")]), (case(2), [_u(12), ("ctrl", "break")]), (case(3), [("jump", "sh2")]),
+                                                                (case(4), [("label", "sh2"), _u(14), ("ctrl", "break")])]), _u(15), ("ctrl", "end")]])
         prog(f"switch_shared_block_default_{tname}", [("switch", sw, [(case(1), [("jump", "sh")]), (case(2), [_u(2), ("ctrl", "break")]),
                                                                        (("default",), [("label", "sh"), _u(4)])]), _u(5)] + tail)
         prog(f"switch_nocases_{tname}", [_u(1), ("switch", sw, [])] + tail)
